@@ -455,8 +455,12 @@ def construct_and_initialize(ctx, c, tracked, extra_hooks=(), call_models=None):
     for h in extra_hooks:
         an2.node_hooks.append(h)
     outs = {}
+    ifn = P.lookup(c, 'initialize')[2]
+    env_param = [a.arg for a in ifn.args.args][1] if len(ifn.args.args) > 1 else None
     for m in mids:
         s = State(m.fields, (), m.flags)
+        if env_param:
+            s.locals[(g2.top.id, env_param)] = 'S'      # initialize(env) is called with the system's environment
         for st in ctx.explore(an2, [s]).exits():
             outs[st.key()] = st
     return list(outs.values())
